@@ -141,6 +141,10 @@ fn gen_codec(ctx: &Ctx, sink: &mut dyn FnMut(String)) {
     let mut r = Rng::new(ctx.seed ^ 0xC24);
     for s in corpus() {
         for op in ["esc", "dec", "rt", "xmltext"] {
+            // the XML-text model covers text without markup: `<` / `&` only as the exporter writes them
+            if op == "xmltext" && (s.contains('<') || s.contains('&')) {
+                continue;
+            }
             sink(format!("c24 {op} {}", hex(&s)));
         }
         let e = ironcalc::verif::escape_xml(&s);
